@@ -1187,6 +1187,20 @@ func c21(sum *lib.Summary) {
 			}
 		}
 		steps := []*big.Int{nil, big.NewInt(1), big.NewInt(2), big.NewInt(3), big.NewInt(7), big.NewInt(-1), big.NewInt(-2), big.NewInt(-3), big.NewInt(0), big.NewInt(100)}
+		// huge steps (around the Go int / int64 boundaries and the type's bounds): few elements, large strides
+		for _, e := range []uint{31, 32, 62, 63, 64, 100} {
+			p := new(big.Int).Lsh(big.NewInt(1), e)
+			for _, d := range []int64{-1, 0, 1} {
+				z := new(big.Int).Add(p, big.NewInt(d))
+				steps = append(steps, z, new(big.Int).Neg(z))
+			}
+		}
+		if t.Max() != nil {
+			steps = append(steps, t.Max(), new(big.Int).Sub(t.Max(), big.NewInt(1)), new(big.Int).Rsh(t.Max(), 1))
+			if t.Min().Sign() < 0 {
+				steps = append(steps, t.Min(), new(big.Int).Add(t.Min(), big.NewInt(1)))
+			}
+		}
 		type tri struct{ s, e, st *big.Int }
 		var tris []tri
 		for n := 0; n < budget*6 && len(tris) < budget; n++ {
@@ -1217,9 +1231,18 @@ func c21(sum *lib.Summary) {
 		case "Int8":
 			tris = append(tris, tri{big.NewInt(-126), big.NewInt(-128), big.NewInt(-1)}, tri{big.NewInt(-128), big.NewInt(127), big.NewInt(2)})
 		case "Int":
-			tris = append(tris, tri{big.NewInt(0), big.NewInt(10), big.NewInt(3)})
+			tris = append(tris, tri{big.NewInt(0), big.NewInt(10), big.NewInt(3)},
+				tri{big.NewInt(0), new(big.Int).Lsh(big.NewInt(1), 64), new(big.Int).Lsh(big.NewInt(1), 64)},
+				tri{big.NewInt(5), new(big.Int).Neg(new(big.Int).Lsh(big.NewInt(1), 65)), new(big.Int).Neg(new(big.Int).Lsh(big.NewInt(1), 63))})
 		case "Word8":
 			tris = append(tris, tri{big.NewInt(250), big.NewInt(255), nil})
+		case "UInt64":
+			tris = append(tris, tri{big.NewInt(0), big.NewInt(5), new(big.Int).Lsh(big.NewInt(1), 63)},
+				tri{big.NewInt(0), new(big.Int).Sub(new(big.Int).Lsh(big.NewInt(1), 64), big.NewInt(2)), new(big.Int).Lsh(big.NewInt(1), 63)})
+		case "Int128":
+			tris = append(tris, tri{big.NewInt(0), new(big.Int).Neg(new(big.Int).Lsh(big.NewInt(1), 70)), new(big.Int).Neg(new(big.Int).Lsh(big.NewInt(1), 64))})
+		case "UInt":
+			tris = append(tris, tri{big.NewInt(0), new(big.Int).Lsh(big.NewInt(1), 65), new(big.Int).Lsh(big.NewInt(1), 64)})
 		}
 		for _, tr := range tris {
 			ctor := fmt.Sprintf("InclusiveRange<%s>(%s, %s)", t.Name, tr.s, tr.e)
